@@ -44,6 +44,11 @@ def isDigit (c : UInt8) : Bool := 0x30 ≤ c && c ≤ 0x39
 def isStructural (c : UInt8) : Bool :=
   c == 0x7b || c == 0x7d || c == 0x5b || c == 0x5d || c == 0x2c || c == 0x3a
 
+/-- what may directly follow a number or literal: whitespace or a closing / separating
+structural character.  A scalar glued to an OPENING bracket (`0{}`, `true[`) is no RFC text
+and no documented stream form: undetermined. -/
+def endsScalar (c : UInt8) : Bool := isWs c || c == 0x7d || c == 0x5d || c == 0x2c || c == 0x3a
+
 def hexVal (c : UInt8) : Option Nat :=
   if 0x30 ≤ c && c ≤ 0x39 then some (c.toNat - 0x30)
   else if 0x61 ≤ c && c ≤ 0x66 then some (c.toNat - 0x61 + 10)
@@ -146,7 +151,7 @@ def lexNumber (b : Bytes) : Except LexErr (Val × Bool × Bytes) :=
   | .ok (ex, rest, hasExp) =>
     -- what follows must end the token
     match rest with
-    | c :: _ => if !(isWs c || isStructural c) then .error .invalid else fin neg ip fp ex hasFrac hasExp rest
+    | c :: _ => if !endsScalar c then .error .invalid else fin neg ip fp ex hasFrac hasExp rest
     | [] => fin neg ip fp ex hasFrac hasExp rest
 where
   fin (neg : Bool) (ip fp : Bytes) (ex : Int) (hasFrac hasExp : Bool) (rest : Bytes) :
@@ -177,7 +182,7 @@ def lexLit (b : Bytes) (word : Bytes) (v : Val) : Except LexErr (Val × Bytes) :
   if word.isPrefixOf b then
     let rest := b.drop word.length
     match rest with
-    | c :: _ => if isWs c || isStructural c then .ok (v, rest) else .error .invalid
+    | c :: _ => if endsScalar c then .ok (v, rest) else .error .invalid
     | [] => .ok (v, rest)
   else if b.isPrefixOf word then .error .truncated
   else .error .invalid
